@@ -3,6 +3,8 @@ CONSTANTS
  MaxPerHost = 3
  MaxHops = 3
  Cut = 40
+ Kinds = {"api", "storage"}
+ ActHosts = {"api", "api2", "other"}
  Fixed = FALSE
  Emit = FALSE
  CredSources = {"helper", "urluser"}
